@@ -1445,9 +1445,13 @@ func (g Gateway) Delete(ctx context.Context, in *hydrapb.DeleteRequest) (*hydrap
 					err = errors.New(swamp.ErrorTreasureDoesNotExists)
 					if exists, exErr := hydraInterface.IsExistSwamp(swampRequest.GetIslandID(), swampNameObj); exErr == nil && exists {
 						if fresh, sErr := hydraInterface.SummonSwamp(ctx, swampRequest.GetIslandID(), swampNameObj); sErr == nil {
-							fresh.BeginVigil()
-							err = fresh.DeleteTreasure(key, false)
-							fresh.CeaseVigil()
+							// (the vigil is given back by a defer: a panic in DeleteTreasure is recovered by this
+							//  handler and must not keep the instance's vigil counter up for ever)
+							func() {
+								fresh.BeginVigil()
+								defer fresh.CeaseVigil()
+								err = fresh.DeleteTreasure(key, false)
+							}()
 						}
 					}
 				}
